@@ -1,6 +1,6 @@
 (* C02 — Standard non-overlapping search: earliest-ending match, then restart after it. *)
 From DV Require Import Model.Base Model.Nfa Model.BwBuild Model.BwSearch Model.Api Model.Spec
-     Model.Cert Proofs.BwCert Theory.SpecAdequacy.
+     Model.Cert Proofs.BwCert Theory.SpecAdequacy Model.Utf8 Model.CwBuild Proofs.Utf8Props Proofs.CwCert.
 Local Open Scope N_scope.
 
 Theorem bw_find_correct :
@@ -21,6 +21,18 @@ Theorem ends_at_from_characterised :
                   /\ x = ((e - l)%nat, e, v).
 Proof. exact in_ends_at_from. Qed.
 Print Assumptions ends_at_from_characterised.
+
+(* Character-wise automaton: patterns are lists of Unicode scalar values, the haystack is the UTF-8
+   encoding of ANY text cs; the result is the character-level specification with its positions
+   translated to byte offsets ([to_bytes cs (s, e, v)] = (bytes before character s, bytes before
+   character e, v)), so every reported offset falls on a character boundary. *)
+Theorem cw_find_correct :
+  forall (V : Type) (veqb : V -> V -> bool), (forall a b, veqb a b = true -> a = b) ->
+  forall (A : cw_automaton V) (pvs : list (list N * V)), cw_cert_ok veqb A pvs = true ->
+  forall cs : list N, Forall scalar cs ->
+    cw_find_iter V A (encode_utf8 cs) = Ok (map (to_bytes V cs) (spec_find V pvs cs)).
+Proof. intros V veqb Hv A pvs C cs Hs. exact (cw_find_correct_lemma V veqb Hv A pvs C cs Hs). Qed.
+Print Assumptions cw_find_correct.
 
 Definition ex_pvs : list (list N * Z) :=
   [([98; 99; 100], 7%Z); ([97; 98], 8%Z); ([97], 9%Z); ([98], 7%Z)].
